@@ -20,8 +20,12 @@ static FLIPPED_CAPS_MAP: &[char] = &[
     '⊥', '∩', 'Ʌ', 'M', 'X', '⅄', 'Z',
 ];
 
-static mut RE_EXCLUDED: Option<Regex> = None;
-static mut RE_AZ: Option<Regex> = None;
+// The compiled regexes are cached per thread: the functions below can be called concurrently,
+// e.g. as the transform of a bundle shared between threads.
+thread_local! {
+    static RE_EXCLUDED: Regex = Regex::new(r"&[#\w]+;|<\s*.+?\s*>").unwrap();
+    static RE_AZ: Regex = Regex::new(r"[a-zA-Z]").unwrap();
+}
 
 pub fn transform_dom(s: &str, flipped: bool, elongate: bool, with_markers: bool) -> Cow<str> {
     // Exclude access-keys and other single-char messages
@@ -30,27 +34,29 @@ pub fn transform_dom(s: &str, flipped: bool, elongate: bool, with_markers: bool)
     }
 
     // XML entities (&#x202a;) and XML tags.
-    let re_excluded =
-        unsafe { RE_EXCLUDED.get_or_insert_with(|| Regex::new(r"&[#\w]+;|<\s*.+?\s*>").unwrap()) };
+    let captures: Vec<(usize, usize)> = RE_EXCLUDED.with(|re_excluded| {
+        re_excluded
+            .find_iter(s)
+            .map(|capture| (capture.start(), capture.end()))
+            .collect()
+    });
 
     let mut result = Cow::from(s);
 
     let mut pos = 0;
     let mut diff = 0;
 
-    for cap in re_excluded.captures_iter(s) {
-        let capture = cap.get(0).unwrap();
-
-        let sub_len = capture.start() - pos;
-        let range = pos..capture.start();
-        let result_range = pos + diff..capture.start() + diff;
+    for (capture_start, capture_end) in captures {
+        let sub_len = capture_start - pos;
+        let range = pos..capture_start;
+        let result_range = pos + diff..capture_start + diff;
         let sub = &s[range.clone()];
         let transform_sub = transform(sub, flipped, elongate);
         diff += transform_sub.len() - sub_len;
         result
             .to_mut()
             .replace_range(result_range.clone(), &transform_sub);
-        pos = capture.end();
+        pos = capture_end;
     }
     let range = pos..s.len();
     let result_range = pos + diff..result.len();
@@ -65,15 +71,13 @@ pub fn transform_dom(s: &str, flipped: bool, elongate: bool, with_markers: bool)
 }
 
 pub fn transform(s: &str, flipped: bool, elongate: bool) -> Cow<str> {
-    let re_az = unsafe { RE_AZ.get_or_insert_with(|| Regex::new(r"[a-zA-Z]").unwrap()) };
-
     let (small_map, caps_map) = if flipped {
         (FLIPPED_SMALL_MAP, FLIPPED_CAPS_MAP)
     } else {
         (TRANSFORM_SMALL_MAP, TRANSFORM_CAPS_MAP)
     };
 
-    re_az.replace_all(s, |caps: &Captures| {
+    RE_AZ.with(|re_az| re_az.replace_all(s, |caps: &Captures| {
         let ch = caps[0].chars().next().unwrap();
         let cc = ch as u8;
         if (97..=122).contains(&cc) {
@@ -94,7 +98,7 @@ pub fn transform(s: &str, flipped: bool, elongate: bool) -> Cow<str> {
         } else {
             ch.to_string()
         }
-    })
+    }))
 }
 
 #[cfg(test)]
